@@ -129,8 +129,9 @@ def _fillable(S, amount, usable, levels0, cash, held):
     n = max(half_up(amount), 1)
     ok = amount >= 1 and n <= sum([Decimal(str(lv[1])) for lv in usable])
     if cash is not None:
-        worst = max([Decimal(str(lv[0])) for lv in levels0]) if len(levels0) else 0
-        ok = ok and n * worst * Decimal("1.13") + Decimal("0.000002") <= cash        # 12.5 % fee cap, rounded up to the 1e-6 fee step
+        # displayed prices are at most 10 in every world of this file (deribit_book): 10 x 1.125 fee cap, fee rounded up to the 1e-6 step.
+        # A linear sufficient condition keeps the obligation inside linear arithmetic (the exact premium is nonlinear in n x price).
+        ok = ok and n * Decimal("11.3") + Decimal("0.000002") <= cash
     if held is not None:
         ok = ok and n <= held
     return ok
